@@ -14,6 +14,8 @@ pub mod c12;
 pub mod c13;
 pub mod c14;
 pub mod c15;
+pub mod c17;
+pub mod c18;
 pub mod c19;
 pub mod c20;
 
@@ -40,6 +42,8 @@ pub static PROPS: &[Prop] = &[
 	Prop { id: "C14", run: c14::run, replay: c14::replay },
 	Prop { id: "C15", run: c15::run_c15, replay: c15::replay_c15 },
 	Prop { id: "C16", run: c15::run_c16, replay: c15::replay_c16 },
+	Prop { id: "C17", run: c17::run, replay: c17::replay },
+	Prop { id: "C18", run: c18::run, replay: c18::replay },
 	Prop { id: "C19", run: c19::run, replay: c19::replay },
 	Prop { id: "C20", run: c20::run, replay: c20::replay },
 ];
